@@ -1500,3 +1500,27 @@ def _arith(op):
 REG.exact["<_ as std::ops::Add>::add"] = _arith("AddWithOverflow")
 REG.exact["<_ as std::ops::Sub>::sub"] = _arith("SubWithOverflow")
 REG.exact["<_ as std::ops::Mul>::mul"] = _arith("MulWithOverflow")
+
+
+@model(OPT + "map_or")
+def m_opt_map_or(ctx, cty, a):
+    o = a[0]
+    if o.variant == 1:
+        return ctx.call_closure(a[2], [o.fields[0]])
+    return a[1]
+
+
+@model(OPT + "map_or_else")
+def m_opt_map_or_else(ctx, cty, a):
+    o = a[0]
+    if o.variant == 1:
+        return ctx.call_closure(a[2], [o.fields[0]])
+    return ctx.call_closure(a[1], [])
+
+
+@model(RES + "map_or")
+def m_res_map_or(ctx, cty, a):
+    r = a[0]
+    if r.variant == 0:
+        return ctx.call_closure(a[2], [r.fields[0]])
+    return a[1]
